@@ -160,6 +160,16 @@ def run(chk):
                 viol = "field names or their order change when written through the encoder"
         if viol:
             chk.violate({"kind": "property", "case": lib.show_case(c), "impl": res[:2000], "explanation": viol})
+    # one VALUE encoded several times in a row through one encoder (a struct embedding the paragraph, with fields of its
+    # own set by hand): encoding does not wear the value out
+    rc = [("wrepeat", [t, str(k).encode()]) for t, r in multi[:chk.n(300, 6000)] for k in (2, 3)]
+    ri = chk.run_impl(rc)
+    chk.record("same-value-encoded-repeatedly", rc, ri, lambda c, r: r.startswith("same"))
+    for c, res in zip(rc, ri):
+        n = len(vals_of(by_doc[c[1][0]]))
+        if res != "same %d" % (n * int(c[1][1])):
+            chk.violate({"kind": "property", "case": lib.show_case(c), "impl": res[:1500], "expected": "same %d" % (n * int(c[1][1])),
+                         "explanation": "a value encoded several times in a row through one encoder is not written the same every time, or does not read back as that many paragraphs"})
     chk.assumptions += ["values are sequences of text lines: no line is '.' alone or whitespace-only (deb822 cannot represent them)",
                         "a value whose first logical line is empty while more lines follow is excluded: known finding empty-first-line",
                         "the executed writer/reader model handles Unicode whitespace exactly as Go does (R2u)"]
